@@ -10,9 +10,70 @@ from build import AnalysisBroken, CACHE, build_facts
 
 
 class Facts:
+    """Facts of one source root.  A scratch copy made by the self-test carries `<root>/../.overlay.json`
+    ({"base": "/repo/src", "changed": [relative paths]}): then only the units that see a changed file are
+    re-extracted from the copy and laid over the base root's facts (mutated code wins)."""
+
     def __init__(self, src_root='/repo/src', only=None, quiet=False):
         self.src_root = os.path.abspath(src_root)
+        self.alt_roots = []
+        ov = os.path.join(os.path.dirname(self.src_root), '.overlay.json')
+        if os.path.exists(ov):
+            self._init_overlay(json.load(open(ov)), quiet)
+        else:
+            self._init_plain(only, quiet)
+        self._index()
+
+    def _init_overlay(self, spec, quiet):
+        base = Facts(spec['base'], quiet=True)
+        changed = [os.path.join(base.src_root, c) for c in spec['changed']]
+        gen_changed = any(c.endswith(('.yy', '.ll')) for c in spec['changed'])
+        affected = []
+        for u in base.units:
+            meta = json.load(open(base.paths[u] + '.meta'))
+            if any(c in meta['deps'] for c in changed) or (gen_changed and u.startswith(base.gen_dir)):
+                affected.append(u)
+        only = []
+        for u in affected:
+            only.append(os.path.basename(u) if u.startswith(base.gen_dir) else os.path.relpath(u, base.src_root))
+        # units newly named by a changed CMakeLists are not supported in overlay mode (not needed by the self-tests)
+        F, R, G, E, fun_unit = {}, {}, {}, {}, {}
+        self.stats = dict(base.stats)
+        self.gen_dir = base.gen_dir
+        if only:
+            paths, stats = build_facts(self.src_root, only=['/' + o for o in only], quiet=quiet)
+            self.gen_dir = stats['gen_dir']
+            for u in sorted(paths):
+                d = json.load(open(paths[u]))
+                for f in d['functions']:
+                    F.setdefault(f['id'], f); fun_unit.setdefault(f['id'], u)
+                for r in d['records']:
+                    R.setdefault(r['name'], r)
+                for g in d['globals']:
+                    if g['name'] not in G or (g.get('def') and not G[g['name']].get('def')):
+                        G[g['name']] = g
+                for e in d['enums']:
+                    E.setdefault(e['name'], e)
+            self.stats['overlay_units'] = len(paths)
+        aff = set(affected)
+        for i, f in base.F.items():
+            if i not in F and base.fun_unit.get(i) not in aff:
+                F[i] = f; fun_unit[i] = base.fun_unit.get(i)
+        for n, r in base.R.items():
+            R.setdefault(n, r)
+        for n, g in base.G.items():
+            G.setdefault(n, g)
+        for n, e in base.E.items():
+            E.setdefault(n, e)
+        self.F, self.R, self.G, self.E, self.fun_unit = F, R, G, E, fun_unit
+        self.units = base.units
+        self.paths = base.paths
+        self.alt_roots = [(base.src_root, 'src/'), (base.gen_dir, 'gen/')]
+        self.load_s = 0
+
+    def _init_plain(self, only, quiet):
         paths, stats = build_facts(self.src_root, only=only, quiet=quiet)
+        self.paths = paths
         self.stats = stats
         self.gen_dir = stats['gen_dir']
         t0 = time.time()
@@ -56,6 +117,9 @@ class Facts:
                 pass
         self.F, self.R, self.G, self.E, self.fun_unit = data
         self.units = sorted(paths)
+        self.load_s = round(time.time() - t0, 2)
+
+    def _index(self):
         self.by_name = collections.defaultdict(list)
         for i, f in self.F.items():
             self.by_name[f['name']].append(i)
@@ -69,7 +133,6 @@ class Facts:
                 for b in m.get('overrides', []):
                     self.over[b].add(m['id'])
         self._allover = {}
-        self.load_s = round(time.time() - t0, 2)
 
     # ---------- lookup ----------
     def rel(self, path):
@@ -77,6 +140,9 @@ class Facts:
             return 'src/' + os.path.relpath(path, self.src_root)
         if path.startswith(self.gen_dir):
             return 'gen/' + os.path.basename(path)
+        for root, pre in self.alt_roots:
+            if path.startswith(root):
+                return pre + os.path.relpath(path, root)
         return path
 
     def loc(self, f, ln=None):
